@@ -6,10 +6,11 @@ class P(vlib.Prop):
     rule = ("parse: corpus of corners, strings derived from the grammar with every optional part toggled and numbers from {0,1,9,10,007,2^31,2^63-1,2^63,10^20-1}, "
             "and a malformed stream (1-2 byte-level edits of valid strings incl. upper case, doubled dots, NUL, non-ASCII, newline); "
             "compare: corner pairs, the full pre x pre and post x post suffix grids, and pairs that differ in exactly one or two fields, each compared in both directions; "
-            "constraint: constraints assembled from known parts (name, operator, version, pin) against neighbouring versions, plus operator runs and odd shapes; "
-            "resolve: raw ResolvePackageNameVersionPin on malformed constraint strings; "
+            "constraint: constraints assembled from known parts (name, operator, version, pin) against neighbouring versions - names from seven fixed strings and, half of the time, from the WHOLE class the grammar admits in a name "
+            "(every byte except @ = > < ~: [ ] { } ! $ , % & ' ( ) * ; ? \\ ^ ` | space, quotes, control and non-ASCII bytes; corpus: 25 such names incl. the real-world cmd:[ under every operator) -, plus operator runs and odd shapes; "
+            "resolve: raw ResolvePackageNameVersionPin on malformed constraint strings (names from the same class); a string that has clean parts must come back as those parts (validator independent of packageNameRegex); "
             "filter: one candidate (own version + provides) through the real filterPackages, the resolver's operator dispatch: equal versions spelled differently under every operator, "
-            "neighbouring versions, provided versions, malformed versions; "
+            "neighbouring versions, provided versions, malformed versions, constraint and provide names from the whole name class; "
             "soname: a so: provide against a so: constraint, both through ResolvePackageNameVersionPin (the 0. rescaling of versions without a release suffix): full grid of 5 versions x {none,-r0,-r1,-r3,-r10} on both sides "
             "under every operator - same-kind pairs must compare as their versions do (regression replays of the fixed defect C03-F2 included) -, neighbouring versions, malformed versions; "
             "pins: candidate LISTS (0-5 candidates in three repositories, pinned to none/edge/local/testing, one in five disqualified, optional provides) through the real filterPackages with the dq map, "
